@@ -5,6 +5,7 @@ import S2T.Props.C06_Input
 import S2T.Props.C06_Ambient
 import S2T.Props.C06_Observers
 import S2T.Props.C06_Cells
+import S2T.Props.C06_Sched
 /-!
 # C06 — determinism, purity, idempotent observation
 
